@@ -40,6 +40,9 @@ SNIPPETS = [
     # loops
     ("def f(n):\n    out = []\n    for i in range(n):\n        if i == 2:\n            continue\n        if i == 4:\n            break\n        out.append(i)\n    else:\n        out.append('done')\n    return out", [(3,), (6,), (0,)]),
     ("def f(n):\n    i = 0\n    while True:\n        i += 1\n        if i >= n:\n            break\n    return i", [(1,), (3,)]),
+    ("def f(a, b):\n    def pick(x, dflt=7):\n        return x if x is not None else dflt + b\n    return pick(a), pick(None), pick(None, 1)", [(1, 2), (None, 3)]),
+    ("def f(a):\n    n = 0\n    def bump(k):\n        nonlocal n\n        n += k\n        return n\n    bump(a)\n    bump(2)\n    return n", [(1,), (5,)]),
+    ("def f(a):\n    def g(x):\n        return x + 1\n    return g(a, 2)", [(1,)]),
     ("def f(xs, t):\n    i = 0\n    while i < len(xs):\n        if xs[i] == t:\n            break\n        i += 1\n    else:\n        return ('all', i)\n    return ('hit', i)", [([], 1), ([1, 2], 2), ([1, 2], 3), ([3], 3)]),
     ("def f(l):\n    return [x * 2 for x in l if x], {x: x for x in l}, any(x > 2 for x in l), all(x for x in l)", [([0, 1, 3],), ([],)]),
     ("def f(a, b):\n    return [x + y for x in a for y in b]", [([1, 2], [10, 20]), ([], [1])]),
@@ -123,7 +126,7 @@ def _run_tiny(src, args):
     env = {n: copy.deepcopy(a) for n, a in zip(names, args)}
     from ..core.tiny import _from_py
     env = {k: _from_py(v) if isinstance(v, (str, bytes)) else v for k, v in env.items()}
-    r = Tiny(env, model_strings=True, model_types=True).run(fn.body)
+    r = Tiny(env, model_strings=True, model_types=True, local_defs=True).run(fn.body)
     if r[0] == "raise":
         return ("raise", str(r[1]).split("(")[0].strip())
     if r[0] == "fall":
